@@ -613,6 +613,11 @@ def run(tier, seed):
     if tier != "quick":
         tasks.append((task_twin, (p17, {"a_load": "z_load", "bias": "Bias", "pos": "_pos"}, {"compass": {"c": "zz", "d": "Aa"}}, {}, tier, seed, "structure:hard")))
         tasks.append((task_cpp_twin, (p17, {"a_load": "z_load"}, {}, {}, tier, seed, "unused-state:first>last")))
+    # names that look like generated temporaries (t0, t1, ...) on the CSE-target program: python and C++ twins
+    p7 = CP.P7()
+    tnames = {n: f"t{i}" for i, n in enumerate(p7.s_state())}
+    tasks.append((task_cpp_twin, (p7, tnames, {}, {}, tier, seed, "temporary-like names t0..")))
+    tasks.append((task_twin, (p7, tnames, {}, {}, tier, seed, "temporary-like names t0..")))
     # C++ twins: fewer (a build each)
     for label, rho, rrho in (rens[1:2] + rens[-1:] if tier == "quick" else rens):
         tasks.append((task_cpp_twin, (base, rho, rrho, {}, tier, seed, label)))
